@@ -1,6 +1,6 @@
 // Native property-level oracle for C07: verification vs. the documented ranges on a grid of
 // boundary and special values (min-1, min, max, max+1, extremes, NaN/inf/-0.0), every field
-// varied alone and in pairs with block_size.  Used to confirm a solver counterexample of the
+// varied alone and in ALL PAIRS of (field, value) choices (two cooperating fields).  Used to confirm a solver counterexample of the
 // exactness harnesses, whose counterexample extraction (a trace through string handling)
 // takes 20+ minutes.
 use super::*;
@@ -25,65 +25,79 @@ fn spec(c: &Encoder) -> bool {
 
 #[test]
 fn c07_oracle_boundary_grid() {
+    type Setter = Box<dyn Fn(&mut Encoder)>;
     let usizes = |lo: usize, hi: usize| -> Vec<usize> {
-        let mut v = vec![0, 1, lo.saturating_sub(1), lo, lo + 1, hi - 1, hi, hi + 1, 255, 256, 65535, 65536, usize::MAX];
+        let mut v = vec![0, 1, 2, lo.saturating_sub(1), lo, lo + 1, hi - 1, hi, hi + 1, 255, 256, 65535, 65536, usize::MAX];
         v.sort_unstable();
         v.dedup();
         v
     };
-    let alphas = [0.0f32, -0.0, 1.0, 0.5, -1e-7, 1.0 + 1e-6, -1.0, 2.0, f32::NAN, f32::INFINITY, f32::NEG_INFINITY, f32::MIN_POSITIVE];
+    let alphas = [0.0f32, -0.0, 1.0, 0.5, -1e-7, 1.0 + 1e-6, -1.0, 2.0, f32::NAN, -f32::NAN, f32::INFINITY, f32::NEG_INFINITY, f32::MIN_POSITIVE];
+    // one entry per field: (name, list of (label, setter))
+    let mut fields: Vec<(&str, Vec<(String, Setter)>)> = Vec::new();
+    macro_rules! usize_field {
+        ($name:literal, $lo:expr, $hi:expr, |$c:ident, $v:ident| $set:expr) => {
+            fields.push(($name, usizes($lo, $hi).into_iter().map(|$v| (format!("{}={}", $name, $v), Box::new(move |$c: &mut Encoder| $set) as Setter)).collect()));
+        };
+    }
+    macro_rules! bool_field {
+        ($name:literal, |$c:ident, $v:ident| $set:expr) => {
+            fields.push(($name, [false, true].into_iter().map(|$v| (format!("{}={}", $name, $v), Box::new(move |$c: &mut Encoder| $set) as Setter)).collect()));
+        };
+    }
+    usize_field!("block_size", 32, 32767, |c, v| c.block_size = v);
+    usize_field!("fixed.max_order", 0, 4, |c, v| c.subframe_coding.fixed.max_order = v);
+    {
+        let mut l: Vec<(String, Setter)> = usizes(1, 64).into_iter().map(|v| (format!("ApproxEnt.partitions={v}"), Box::new(move |c: &mut Encoder| c.subframe_coding.fixed.order_sel = OrderSel::ApproxEnt { partitions: v }) as Setter)).collect();
+        l.push(("BitCount".to_owned(), Box::new(|c: &mut Encoder| c.subframe_coding.fixed.order_sel = OrderSel::BitCount)));
+        fields.push(("order_sel", l));
+    }
+    usize_field!("lpc_order", 1, 24, |c, v| c.subframe_coding.qlpc.lpc_order = v);
+    usize_field!("quant_precision", 1, 15, |c, v| c.subframe_coding.qlpc.quant_precision = v);
+    usize_field!("max_parameter", 0, 14, |c, v| c.subframe_coding.prc.max_parameter = v);
+    {
+        let mut l: Vec<(String, Setter)> = alphas.into_iter().map(|a| (format!("alpha={a:?}"), Box::new(move |c: &mut Encoder| c.subframe_coding.qlpc.window = Window::Tukey { alpha: a }) as Setter)).collect();
+        l.push(("Rectangle".to_owned(), Box::new(|c: &mut Encoder| c.subframe_coding.qlpc.window = Window::Rectangle)));
+        fields.push(("window", l));
+    }
+    bool_field!("use_direct_mse", |c, v| c.subframe_coding.qlpc.use_direct_mse = v);
+    fields.push(("mae_steps", [0usize, 1, 3, usize::MAX].into_iter().map(|v| (format!("mae_steps={v}"), Box::new(move |c: &mut Encoder| c.subframe_coding.qlpc.mae_optimization_steps = v) as Setter)).collect()));
+    bool_field!("use_constant", |c, v| c.subframe_coding.use_constant = v);
+    bool_field!("use_fixed", |c, v| c.subframe_coding.use_fixed = v);
+    bool_field!("use_lpc", |c, v| c.subframe_coding.use_lpc = v);
+    bool_field!("use_leftside", |c, v| c.stereo_coding.use_leftside = v);
+    bool_field!("use_rightside", |c, v| c.stereo_coding.use_rightside = v);
+    bool_field!("use_midside", |c, v| c.stereo_coding.use_midside = v);
+    bool_field!("multithread", |c, v| c.multithread = v);
+    fields.push(("workers", [0usize, 1, 7, usize::MAX].into_iter().map(|v| (format!("workers={v}"), Box::new(move |c: &mut Encoder| c.workers = std::num::NonZeroUsize::new(v)) as Setter)).collect()));
+
     let mut bad = Vec::new();
+    let mut n = 0usize;
     let mut check = |c: Encoder, what: String| {
-        if c.verify().is_ok() != spec(&c) {
-            bad.push(what);
+        n += 1;
+        let accepted = c.verify().is_ok();
+        if accepted != spec(&c) || accepted != c.clone().into_verified().is_ok() {
+            if bad.len() < 12 {
+                bad.push(what);
+            }
         }
     };
-    for bs in usizes(32, 32767) {
-        let mut c = Encoder::default();
-        c.block_size = bs;
-        check(c, format!("block_size={bs}"));
+    check(Encoder::default(), "default".to_owned());
+    for (i, (_, li)) in fields.iter().enumerate() {
+        for (la, sa) in li {
+            let mut c = Encoder::default();
+            sa(&mut c);
+            check(c, la.clone());
+            for (_, lj) in fields.iter().skip(i + 1) {
+                for (lb, sb) in lj {
+                    let mut c = Encoder::default();
+                    sa(&mut c);
+                    sb(&mut c);
+                    check(c, format!("{la} & {lb}"));
+                }
+            }
+        }
     }
-    for v in usizes(0, 4) {
-        let mut c = Encoder::default();
-        c.subframe_coding.fixed.max_order = v;
-        check(c, format!("fixed.max_order={v}"));
-    }
-    for v in usizes(1, 64) {
-        let mut c = Encoder::default();
-        c.subframe_coding.fixed.order_sel = OrderSel::ApproxEnt { partitions: v };
-        check(c, format!("ApproxEnt.partitions={v}"));
-    }
-    for v in usizes(1, 24) {
-        let mut c = Encoder::default();
-        c.subframe_coding.qlpc.lpc_order = v;
-        check(c, format!("lpc_order={v}"));
-    }
-    for v in usizes(1, 15) {
-        let mut c = Encoder::default();
-        c.subframe_coding.qlpc.quant_precision = v;
-        check(c, format!("quant_precision={v}"));
-    }
-    for v in usizes(0, 14) {
-        let mut c = Encoder::default();
-        c.subframe_coding.prc.max_parameter = v;
-        check(c, format!("max_parameter={v}"));
-    }
-    for a in alphas {
-        let mut c = Encoder::default();
-        c.subframe_coding.qlpc.window = Window::Tukey { alpha: a };
-        check(c, format!("alpha={a:?}"));
-    }
-    for (mse, steps) in [(true, 0usize), (false, 1), (true, 3)] {
-        let mut c = Encoder::default();
-        c.subframe_coding.qlpc.use_direct_mse = mse;
-        c.subframe_coding.qlpc.mae_optimization_steps = steps;
-        check(c, format!("use_direct_mse={mse} mae_steps={steps}"));
-    }
-    {
-        let mut c = Encoder::default();
-        c.subframe_coding.fixed.order_sel = OrderSel::BitCount;
-        c.subframe_coding.qlpc.window = Window::Rectangle;
-        check(c, "BitCount+Rectangle".to_owned());
-    }
-    assert!(bad.is_empty(), "verify() disagrees with the documented ranges for: {bad:?}");
+    assert!(n > 3000);
+    assert!(bad.is_empty(), "verify() disagrees with the documented ranges for (first 12): {bad:?}");
 }
